@@ -56,12 +56,40 @@ def cases(tier, rng):
     for _ in range(n):
         ws = [rng.choice(words) for _ in range(rng.randint(3, 6))]
         out.append(("(useq %s (%s %s))" % (ss_from(rng.choice(jss)), OUT, fn("join", *ws)), "join"))
+    # ---- beyond the small shapes: long lists (8-20 elements), tails bound through a chain of four lists, complex terms of arity
+    #      5-9, long and non-ASCII functors with prefix patterns, join of 7-15 words ----
+    el = [a, b, c, q, integer(1), integer(2), flt(2.5), cplx("f", a), cplx("f", b), lst([a]), EMPTY, atom("Zo\u00eb"), atom("a b")]
+    chain = {4: lst([q, a], U), 5: lst([b, c, a], V), 6: lst([a], W), 7: lst([c, b])}
+    longs = []
+    for n in ([8, 9, 12, 17, 20] if tier == "quick" else list(range(5, 33))):
+        for _ in range(2 if tier == "quick" else 4):
+            es = [rng.choice(el) for _ in range(n)]
+            longs.append((lst(es), {})); longs.append((lst(es, T), chain)); longs.append((lst(es[:n // 2], T), {4: lst(es[n // 2:])}))
+    for l, d in longs:
+        ss = ss_from(d)
+        out.append(("(bip %s (%s %s) %s)" % (S("count"), l, OUT, ss), "count"))
+        for p in [ANON, a, integer(1), cplx("f", ANON), lst([ANON], ANON), X]:
+            out.append(("(bip %s (%s %s %s) %s)" % (S("include"), p, l, OUT, ss), "include"))
+            out.append(("(bip %s (%s %s %s) %s)" % (S("exclude"), p, l, OUT, ss), "exclude"))
+    names = ["a_rather_long_functor_name_of_more_than_thirty_two_characters", "na\u00efve", "\u65e5\u672c\u8a9e", "symptom"]
+    for nm in names:
+        for ar in (1, 5, 8, 9):
+            ct = cplx(nm, *[rng.choice(el) for _ in range(ar)])
+            for f in [OUT, atom(nm), atom(nm + "*"), atom(nm[:-1] + "*"), atom(nm[:1] + "*"), atom(nm + "x*"), atom(nm[1:] + "*")]:
+                for arg in (None, OUT2, integer(ar), integer(ar + 1)):
+                    args = [ct, f] + ([arg] if arg is not None else [])
+                    out.append(("(bip %s (%s) (ss))" % (S("functor"), " ".join(args)), "functor"))
+    for _ in range(60 if tier == "quick" else 2000):
+        ws = [rng.choice(words) for _ in range(rng.randint(7, 15))]
+        out.append(("(useq %s (%s %s))" % (ss_from(rng.choice(jss)), OUT, fn("join", *ws)), "join"))
     seen, res = set(), []
     for cse in out:
         if cse[0] not in seen: seen.add(cse[0]); res.append(cse)
     return res
 
-RULE = ("count over 18 list arguments x 6 substitutions (bound tails, tails bound to [] / a non-list / a list with a bound tail, "
+RULE = ("also long lists (8-20 elements; thorough 5-32), tails bound through a chain of four lists, complex terms of arity 5-9, long and non-ASCII "
+        "functor names with prefix patterns (whole name, all but the last character, first character, too long, not a prefix), join of 7-15 words; "
+        "count over 18 list arguments x 6 substitutions (bound tails, tails bound to [] / a non-list / a list with a bound tail, "
         "nested and empty elements, variables bound to constants); include/exclude over the same with 14 patterns (atoms, numbers, "
         "$_, unbound and bound variables, f($_), [$_ | $_], []); functor over complex terms of arity 0-4 (literal and through "
         "variables) x 12 functor arguments (exact, prefix*, variable) x 8 arity arguments; join over all 1- and 2-word and random "
